@@ -54,11 +54,8 @@ func parseTree(out []byte, root string) (*driver.Outcome, error) {
 			return nil, fmt.Errorf("driver output is not a JSON tree: %v\n%.600s", err, out)
 		}
 		for id, byAnalyzer := range tree {
-			path := id
-			if i := strings.Index(id, " ["); i >= 0 {
-				path = id[:i]
-			}
-			if strings.HasSuffix(path, ".test") {
+			path := id // keyed by package ID: variants are kept apart
+			if strings.HasSuffix(world.BasePath(id), ".test") || strings.HasSuffix(id, ".test") {
 				continue // the generated test main package
 			}
 			if _, ok := o.Diags[path]; !ok {
@@ -91,8 +88,7 @@ func parseTree(out []byte, root string) (*driver.Outcome, error) {
 			}
 		}
 	}
-	o.Normalise()
-	return o, nil
+	return o.MergeVariants(), nil
 }
 
 func cfgFlags(c world.Config) []string {
@@ -223,7 +219,7 @@ func realLegs(tier string, seed uint64, realBin string, a *core.Agg) ([]*core.Vi
 			if err != nil {
 				return core.Infra("real-driver leg, world %d, %s: %v", j.i, name, err)
 			}
-			outs = append(outs, named{name, o, real})
+			outs = append(outs, named{name, o.MergeVariants(), real})
 			return nil
 		}
 		simOut, _, err := driver.RunChecker(l, &driver.Exec{Driver: "checker", Transport: "share", Roots: all, Rerun: -1, Sched: sched.Config{Strategy: sched.Sequential}}, core.NewTape(1))
@@ -253,7 +249,7 @@ func realLegs(tier string, seed uint64, realBin string, a *core.Agg) ([]*core.Vi
 		a.Add("real.go_vet_runs", 2)
 		a.Inc("real.worlds")
 
-		paths := j.w.OutcomePaths(all)
+		paths := j.w.OutcomePathsMerged(all)
 		sort.Strings(paths)
 		// 1. the real drivers among themselves: a disagreement is a C06 violation
 		for _, p := range paths {
